@@ -756,6 +756,9 @@ func RunC16(tier string) int {
 			run.Nontrivial(f + "|" + kind + "|accepted")
 		}
 	})
+	// (4) typed fuzzing, adversarial programs
+	c16TypedPart(run, st, tier)
+	run.Assume("memory bombs (a Starlark program that doubles a string 40 times) are not generated: they would take the sandbox down with them")
 	run.Assume("pkl BUILD files are not covered (no pkl CLI offline); script targets (*.grog.sh) are covered only through corruptions of Makefile-style annotations")
 	return run.Finish()
 }
